@@ -226,6 +226,10 @@ class AASDataChecker(DataChecker):
             given_semantic_id = self._find_reference(suppl_semantic_id, object_.supplemental_semantic_id)
             self.check(given_semantic_id is not None, f"{object_!r} must have supplementalSemanticId",
                        value=suppl_semantic_id)
+            # the list may hold equal references: each one must be there as often as expected
+            self.check(list(object_.supplemental_semantic_id).count(suppl_semantic_id)
+                       == list(expected_object.supplemental_semantic_id).count(suppl_semantic_id),
+                       f"{object_!r} must have supplementalSemanticId as often as expected", value=suppl_semantic_id)
 
         found_elements = self._find_extra_object(object_.supplemental_semantic_id,
                                                  expected_object.supplemental_semantic_id, model.Reference)
